@@ -68,6 +68,8 @@ def normalise_ext(src, dst):
                 continue
             e = json.loads(line)
             ev = e.get("ev")
+            if e.get("c", 0) not in (0, None) and ev not in ("reset",):
+                continue      # traffic and callbacks of the bystander connection are judged in the harness
             parked = e.get("parked") or []
             held = e.get("held")
             if held is None:
@@ -212,14 +214,43 @@ def case_replay(bpath, case_id):
     return {"id": case_id}
 
 
-def report_verdicts(ctx, verdicts, props, bpath, c, engine):
+def inflight_at_close(ext_path):
+    """Per case: the T-message types unanswered when the client disconnected (for C11 keys)."""
+    out = {}
+    if not ext_path or not os.path.exists(ext_path):
+        return out
+    case = None
+    pend = []
+    with open(ext_path) as f:
+        for line in f:
+            e = json.loads(line)
+            ev = e.get("ev")
+            if ev == "reset":
+                case = e.get("case")
+                pend = []
+            elif ev == "T" and e.get("c", 0) == 0:
+                pend.append([e.get("tag"), e.get("type")])
+            elif ev == "R" and e.get("c", 0) == 0:
+                for p in pend:
+                    if p[0] == e.get("tag"):
+                        pend.remove(p)
+                        break
+            elif ev == "cclose" and e.get("c", 0) == 0:
+                out[case] = "+".join(sorted(set(p[1] for p in pend))) or "none"
+    return out
+
+
+def report_verdicts(ctx, verdicts, props, bpath, c, engine, ext_path=None):
     """Register monitor verdicts of the given properties as violations of the running check."""
     n = 0
+    infl = inflight_at_close(ext_path) if "C11" in props else {}
     for (case, prop, kind, detail) in verdicts:
         if prop not in props:
             continue
         n += 1
         key = "%s:%s:%s" % (prop, kind, classify_detail(kind, detail))
+        if prop == "C11":
+            key += "inflight=" + infl.get(case, "?")
         ctx.violation(key, "%s %s (case %d of %s)" % (kind, detail, case, engine),
                       {"engine": engine, "config": harness_cfg(c), "constants": {k: (sorted(v) if isinstance(v, (set, frozenset)) else v) for k, v in c.items()},
                        "behaviour": case_replay(bpath, case)})
@@ -231,3 +262,39 @@ def classify_detail(kind, detail):
     message types involved, not request numbers or tags."""
     types = sorted(set(re.findall(r'"([TR][a-z]+)"', detail)))
     return ",".join(types)
+
+
+def replay_file(ctx, props):
+    """vcheck --replay: re-execute the recorded behaviour of a violation on the current tree."""
+    d = json.load(open(ctx.replay))
+    rp = d["replay"]
+    c = dict(rp["constants"])
+    for k, v in list(c.items()):
+        if isinstance(v, list):
+            c[k] = set(v)
+    c.update(detect_fixes(ctx.repo))
+    b = rp["behaviour"]
+    steps = b.get("steps", [])
+    paths = [[(st[0], st[1:]) for st in steps]]
+    hc = rp.get("config", {})
+    bpath = ctx.path("beh_replay.ndjson")
+    with open(bpath, "w") as f:
+        f.write(json.dumps({"id": 1, "steps": steps}) + "\n")
+    tpath = ctx.path("trace_replay.ndjson")
+    epath = ctx.path("ext_replay.ndjson")
+    cfg = harness_cfg(c, bystander=bool(hc.get("Bystander")))
+    env = {"VERIF_BEHAVIOURS": bpath, "VERIF_CFG": json.dumps(cfg), "VERIF_TRACE_OUT": tpath, "VERIF_EXT_OUT": epath}
+    ctx.go_engine_resilient("srvh", "TestReplay", env=env, ext_out=epath, timeout=300, name="TestReplay:replay")
+    verdicts, _ = run_monitor(ctx, epath)
+    report_verdicts(ctx, verdicts, props, bpath, c, "TestReplay", ext_path=epath)
+    if os.environ.get("VERIF_SHOW"):
+        print(open(epath).read())
+    cov = {"states": 1, "transitions": 1, "traces_validated_against_impl": 1, "samples": [steps[:40]],
+           "evaluations": 1, "distinct_nontrivial": 2, "rule": "replay of one recorded behaviour", "replay_of": d.get("key")}
+    # a replay must not overwrite the evidence of the last real run
+    ev = os.path.join(vlib.VERIF, "evidence", "%s.json" % ctx.prop)
+    keep = open(ev).read() if os.path.exists(ev) else None
+    code = ctx.finish("model_checking", cov, assumptions=["replay"])
+    if keep is not None:
+        open(ev, "w").write(keep)
+    return code
